@@ -54,6 +54,8 @@ func checkC16(run *Run, res *Result) {
 	rebalances := map[int]int{}
 	inAck := map[vbKey]bool{}
 	loading := map[int]bool{}
+	lastInfo := map[int][2]int{}
+	inEffect := map[int][2]int{}
 	openingSess := map[int]bool{}
 	for i := range run.Evs {
 		e := &run.Evs[i]
@@ -70,6 +72,9 @@ func checkC16(run *Run, res *Result) {
 				assigned[e.M] = map[int]bool{}
 				loading[e.M] = true
 				openingSess[e.M] = true
+				if li, ok := lastInfo[e.M]; ok {
+					inEffect[e.M] = li
+				}
 			case "AfterStreamStart":
 				open[e.M] = true
 				openingSess[e.M] = false
@@ -78,6 +83,8 @@ func checkC16(run *Run, res *Result) {
 			case "AfterRebalanceEnd":
 				rebalances[e.M]++
 			}
+		case journal.KPublish:
+			lastInfo[e.M] = [2]int{int(e.I), int(e.U)}
 		case journal.KCall:
 			if e.S == "scrape" {
 				calls[e.M] = &scrapeCall{n: e.N, high: map[int]uint64{}}
@@ -222,6 +229,16 @@ func checkC16(run *Run, res *Result) {
 			}
 			if rb, ok := e.F["cbgo_rebalance_current"]; ok && int(rb) != rebalances[e.M] && open[e.M] {
 				res.violate("C16", "R4-rebalance-count", e.N, "plain", "member %d: cbgo_rebalance_current=%v, %d rebalances were completed", e.M, rb, rebalances[e.M])
+			}
+			if ie, ok := inEffect[e.M]; ok && cfg.Membership != "static" && open[e.M] && !closing[e.M] {
+				lo, hi := partition(cfg.NVb, ie[1], ie[0])
+				tm, mn := e.F["cbgo_total_members_current"], e.F["cbgo_member_number_current"]
+				rs, re := e.F["cbgo_vbucket_range_start_current"], e.F["cbgo_vbucket_range_end_current"]
+				if int(tm) != ie[1] || int(mn) != ie[0] || int(rs) != lo || int(re) != hi {
+					res.violate("C16", "R4-membership", e.N, "plain",
+						"member %d: gauges say member %v/%v, vBuckets %v-%v; the membership in effect is %d/%d, vBuckets %d-%d", e.M, mn, tm, rs, re, ie[0], ie[1], lo, hi)
+				}
+				res.probe("group-gauges-judged")
 			}
 			if tm, ok := e.F["cbgo_total_members_current"]; ok && cfg.Membership == "static" && int(tm) != cfg.TotalMembers {
 				res.violate("C16", "R4-membership", e.N, "plain", "member %d: cbgo_total_members_current=%v, configured group size is %d", e.M, tm, cfg.TotalMembers)
